@@ -113,6 +113,22 @@ func atomsOf(d ldoc, major func(level int) bool) []atom {
 	return out
 }
 
+// occurrences lists the offsets of the non-overlapping occurrences of t in s.
+func occurrences(s, t string) []int {
+	var out []int
+	if t == "" {
+		return out
+	}
+	for from := 0; ; {
+		at := strings.Index(s[from:], t)
+		if at < 0 {
+			return out
+		}
+		out = append(out, from+at)
+		from += at + len(t)
+	}
+}
+
 func eqPath(a, b []string) bool {
 	if len(a) != len(b) {
 		return false
@@ -182,7 +198,16 @@ func checkChunks(c *hx.Ctx, o coverOpts, atoms []atom, chunks []cview, kase inte
 		return fmt.Sprintf("TotalChunks %v, want %d everywhere; %s", got, n, what())
 	})
 
-	// cover: each atom exactly once, in order
+	// cover: each atom exactly once, in order. Texts are unique in the document except
+	// that a heading text may recur (group): k headings with one text must give exactly
+	// k occurrences, and the i-th heading of the group is the i-th occurrence — a
+	// repeated heading is identified by its position, not by its text.
+	group := map[string][]int{}
+	for i, a := range atoms {
+		if o.kinds[a.Kind] {
+			group[a.Text] = append(group[a.Text], i)
+		}
+	}
 	type hit struct{ a, b int }
 	hits := make([]hit, len(atoms))
 	lastEnd := map[string]int{}
@@ -191,19 +216,66 @@ func checkChunks(c *hx.Ctx, o coverOpts, atoms []atom, chunks []cview, kase inte
 		if !o.kinds[a.Kind] {
 			continue
 		}
-		cnt := strings.Count(S, a.Text)
-		if !c.Check(o.prefix+"cover-missing-"+a.Kind, cnt > 0, kase, func() string {
-			return fmt.Sprintf("%s %q (page %d) occurs in no chunk text; %s", a.Kind, clip(a.Text), a.Page, what())
-		}) {
+		members := group[a.Text]
+		if len(members) > 1 {
+			if members[0] != i {
+				continue // the group is judged once, at its first member
+			}
+			occ := occurrences(S, a.Text)
+			k, cnt := len(members), len(occ)
+			if cnt < k {
+				// k-cnt headings of the group are missing. Section-opening headings and
+				// minor headings have keys of their own: a minor heading is reported only
+				// when more are missing than the group has section-opening headings.
+				majors := 0
+				for _, m := range members {
+					if atoms[m].Kind != "minor-heading" {
+						majors++
+					}
+				}
+				kind := "heading"
+				if k-cnt > majors {
+					kind = "minor-heading"
+				}
+				if a.Kind != "heading" && a.Kind != "minor-heading" {
+					kind = a.Kind
+				}
+				c.Check(o.prefix+"cover-missing-"+kind, false, kase, func() string {
+					return fmt.Sprintf("%s text %q is the text of %d headings of the document (first on page %d) but occurs only %d times in the concatenated chunk texts; %s",
+						kind, clip(a.Text), k, a.Page, cnt, what())
+				})
+				continue
+			}
+			if !c.Check(o.prefix+"cover-duplicate-"+a.Kind, cnt == k, kase, func() string {
+				return fmt.Sprintf("%s text %q is the text of %d headings of the document (first on page %d) but occurs %d times in the concatenated chunk texts; %s",
+					a.Kind, clip(a.Text), k, a.Page, cnt, what())
+			}) {
+				continue
+			}
+			for j, m := range members {
+				hits[m] = hit{occ[j], occ[j] + len(a.Text)}
+			}
+		} else {
+			cnt := strings.Count(S, a.Text)
+			if !c.Check(o.prefix+"cover-missing-"+a.Kind, cnt > 0, kase, func() string {
+				return fmt.Sprintf("%s %q (page %d) occurs in no chunk text; %s", a.Kind, clip(a.Text), a.Page, what())
+			}) {
+				continue
+			}
+			if !c.Check(o.prefix+"cover-duplicate-"+a.Kind, cnt == 1, kase, func() string {
+				return fmt.Sprintf("%s %q (page %d) occurs %d times in the concatenated chunk texts; %s", a.Kind, clip(a.Text), a.Page, cnt, what())
+			}) {
+				continue
+			}
+			at := strings.Index(S, a.Text)
+			hits[i] = hit{at, at + len(a.Text)}
+		}
+	}
+	for i, a := range atoms {
+		at := hits[i].a
+		if at < 0 {
 			continue
 		}
-		if !c.Check(o.prefix+"cover-duplicate-"+a.Kind, cnt == 1, kase, func() string {
-			return fmt.Sprintf("%s %q (page %d) occurs %d times in the concatenated chunk texts; %s", a.Kind, clip(a.Text), a.Page, cnt, what())
-		}) {
-			continue
-		}
-		at := strings.Index(S, a.Text)
-		hits[i] = hit{at, at + len(a.Text)}
 		lane := "all"
 		key := o.prefix + "cover-order"
 		if !o.crossKind {
